@@ -76,6 +76,13 @@ impl<'a, 'b> PatternTyper<'a, 'b> {
                 match self.environment.scope.get(name) {
                     // This variable was defined in the Initial multi-pattern
                     Some(initial) if self.initial_pattern_vars.contains(name) => {
+                        // Ensure there are no duplicate variable names in the alternative either
+                        if assigned.iter().any(|assigned_name| assigned_name == name) {
+                            return Err(Error::DuplicateVarInPattern {
+                                name: name.to_string(),
+                                location: err_location,
+                            });
+                        }
                         assigned.push(name.to_string());
                         let initial_typ = initial.tipo.clone();
                         self.environment
